@@ -122,7 +122,11 @@ func vxLeafConst(id string) (ast.Constant, bool) {
 		}
 		return ast.String(vxString(id+"_str", 1)), true
 	case 2:
-		return vxName(id+"_nm", vxParam("CLEN", 3))
+		n := vxParam("CLEN", 3)
+		if vxParam("ENUMNAMES", 0) == 0 {
+			n = 1 + vxChoose(id+"_nlen", n)
+		}
+		return vxName(id+"_nm", n)
 	case 3:
 		return ast.Float64(1.5), true
 	}
